@@ -44,6 +44,9 @@ class Mpo(MatrixProduct):
         mpo = cls()
         if np.iscomplex(x):
             mpo.to_complex(inplace=True)
+        else:
+            # e.g. -1j * (-1j * tau): complex type with zero imaginary part
+            x = np.real(x)
         mpo.model = model
 
         for imol, mol in enumerate(model):
